@@ -80,6 +80,16 @@ impl<S> MapOperationQueue<S> {
     }
 }
 
+#[cfg(feature = "verif_hooks")]
+impl MapOperationQueue<RandomState> {
+    /// Create an empty queue whose epoch counter starts at the given value (verification only).
+    pub fn verif_with_head_epoch(head_epoch: usize) -> Self {
+        let mut queue = Self::new();
+        queue.head_epoch = head_epoch;
+        queue
+    }
+}
+
 impl<S: BuildHasher> MapOperationQueue<S> {
     /// Push an operation into the queue. It is necessary for the key to contain valid UTF-8 for
     /// it to be possible to compare keys and, if this is not the case, this operation will fail.
